@@ -172,6 +172,7 @@ class Env:
 
     def __init__(self):
         self.fns, self.classes, self.objs = {}, {}, {}
+        self.hooks = []
         self.rev = {}
 
     def cls(self, cid):
@@ -272,6 +273,32 @@ def _classes(ids, env):
     return env.cls(ids[0]) if len(ids) == 1 else tuple(env.cls(i) for i in ids)
 
 
+HOOK_TYPES = ('Number', 'Integer', 'Magnitude', 'Date', 'CalendarDate')
+
+
+def _hook(h, env):
+    """the small family of `set_hook`s the model knows (Driver/C01.lean parseHook, Model.lean applyHook)"""
+    kind = h['hook']
+    if kind == 'ident':
+        f = lambda obj, v: v
+    elif kind == 'double':
+        f = lambda obj, v: v * 2 if type(v) in (bool, int, float) else v
+    elif kind == 'neg':
+        f = lambda obj, v: -v if type(v) in (bool, int, float) else v
+    elif kind == 'const':
+        k = env.dec(h['k'])
+        f = lambda obj, v: k
+    else:
+        raise ValueError(h)
+    env.hooks.append(f)          # in construction order: [hook of p1, hook of p2]
+    return f
+
+
+def _hooked(case):
+    h = case['args'].get('set_hook', {}).get('v')
+    return bool(h) and h['hook'] != 'ident' and case['ptype'] in HOOK_TYPES
+
+
 def _kwargs(ptype, args, env):
     kw = {}
     for k, w in args.items():
@@ -297,6 +324,10 @@ def _kwargs(ptype, args, env):
                 kw[k] = dict(zip(args['names']['v'], kw[k]))
         elif k == 'names':
             continue
+        elif k == 'softbounds':
+            kw[k] = None if v is None else tuple(env.dec(b) for b in v)
+        elif k == 'set_hook':
+            kw[k] = _hook(v, env)
         else:
             kw[k] = v
     return kw
@@ -391,7 +422,8 @@ def run_impl(case):
                  'length': p1.length if ptype in HAS_LEN else None,
                  'bounds': ([p1.bounds[0] is not None, p1.bounds[1] is not None]
                             if ptype in HAS_BOUNDS and p1.bounds is not None else None),
-                 'check_on_set': bool(p1.check_on_set) if ptype in ('Selector', 'ListSelector') else None}
+                 'check_on_set': bool(p1.check_on_set) if ptype in ('Selector', 'ListSelector') else None,
+                 'constant': bool(p1.constant), 'readonly': bool(p1.readonly)}
         C1 = type('C1', (param.Parameterized,), {'p': p1})
         C2 = type('C2', (param.Parameterized,), {'p': p2})
         if case.get('obj_ops'):
@@ -401,6 +433,8 @@ def run_impl(case):
                 if [env.enc(o) for o in C.param.p.objects] != case['objects_after']:
                     raise _AliasBroken(f'objects after the edits: {[env.enc(o) for o in C.param.p.objects]!r}')
         inst, inst2 = C1(), C1()
+        hooked = _hooked(case)
+        hk1, hk2 = (env.hooks[0], env.hooks[1]) if len(env.hooks) == 2 and ptype in HOOK_TYPES else (None, None)
         out = []
         for j in case['values']:
             v = env.dec(j)
@@ -409,10 +443,26 @@ def run_impl(case):
 
             def kw():
                 box['o'] = C1(p=v)
+
+            def route(do, read, hk):
+                # `same`: the object that reaches the constant guard (the hook's output) is the one already
+                # held; a fact about Python object identity, established here, not by param
+                try:
+                    same = read() is (hk(None, v) if hk else v)
+                except Exception:
+                    same = False
+                r = _attempt(do, read, v)
+                if hooked and r[0] == 'ok' and not str(r[1]).startswith('readerr'):
+                    r[1] = {'val': env.enc(read())}
+                return r + [same]
             o['kw'] = _attempt(kw, lambda: box['o'].param.get_value_generator('p'), v)
-            o['inst'] = _attempt(lambda: setattr(inst, 'p', v), lambda: inst.param.get_value_generator('p'), v)
-            o['upd'] = _attempt(lambda: inst2.param.update(p=v), lambda: inst2.param.get_value_generator('p'), v)
-            o['cls'] = _attempt(lambda: setattr(C2, 'p', v), lambda: C2.param.get_value_generator('p'), v)
+            if hooked and o['kw'][0] == 'ok':
+                o['kw'][1] = {'val': env.enc(box['o'].param.get_value_generator('p'))}
+            o['kw'].append(False)
+            o['inst'] = route(lambda: setattr(inst, 'p', v), lambda: inst.param.get_value_generator('p'), hk1)
+            o['upd'] = route(lambda: inst2.param.update(p=v), lambda: inst2.param.get_value_generator('p'), hk1)
+            o['cls'] = route(lambda: setattr(C2, 'p', v), lambda: C2.param.get_value_generator('p'), hk2)
+            o['cupd'] = route(lambda: C2.param.update(p=v), lambda: C2.param.get_value_generator('p'), hk2)
             # deserialisation route, where the value has a JSON form
             o['deser'] = None
             try:
@@ -428,7 +478,10 @@ def run_impl(case):
             if dj is not Ellipsis:
                 def de():
                     box['d'] = C1(p=dv)
-                o['deser'] = _attempt(de, lambda: box['d'].param.get_value_generator('p'), dv, eq=True) + [dj, jv]
+                rd = _attempt(de, lambda: box['d'].param.get_value_generator('p'), dv, eq=True)
+                if hooked and rd[0] == 'ok':
+                    rd[1] = {'val': env.enc(box['d'].param.get_value_generator('p'))}
+                o['deser'] = rd + [dj, jv]
             out.append(o)
         return {'ctor': 'ok', 'slots': slots, 'vals': out, 'alias': _run_alias(case, env, C1, C2)}
     except Exception as e:  # the harness itself could not drive the object: report, do not hide
@@ -894,6 +947,97 @@ def alias_cases():
     yield mk('ClassSelector', A(class_=[8, 6], allow_None=True), [], [a({}, ('setitem', E('k'), E(1))), a([1], ap('x'))])
 
 
+def hook_cases():
+    """`Number.set_hook`: what is validated and stored is the hook's output"""
+    vals = [None, True, False, -16, -8, -4, -1, 0, 1, 4, 5, 8, 10, 16, 2.5, 5.0, 8.0, -0.0, NAN, INF, -INF, 1e308, -1e308, 8.98846567431158e307,
+            2**1023, -2**1023, 5e-324, Fraction(4), Decimal(4), 'a', (), [1], F1, GEN, UA]
+    pool = [E(v) for v in vals]
+    H = lambda kind, k=None: dict({'hook': kind}, **({'k': E(k)} if kind == 'const' else {}))
+    hooks = [H('ident'), H('double'), H('neg'), H('const', 3), H('const', 16), H('const', 2.5), H('const', 'x'), H('const', None),
+             H('const', NAN), H('const', True)]
+    k = 0
+    for ptype in ('Number', 'Integer', 'Magnitude'):
+        for hook in hooks:
+            for bounds in ('absent', [0, 10], [-10, 0], [None, 10], [0, None]):
+                k += 1
+                if ptype == 'Magnitude' and bounds not in ('absent', [0, 10]):
+                    continue
+                args = A(set_hook=hook)
+                if bounds != 'absent':
+                    args.update(A(bounds=[E(b) for b in bounds]))
+                    if k % 3 == 0:
+                        args.update(A(inclusive_bounds=[False, False]))
+                if k % 4 == 0:
+                    args.update(A(allow_None=True))
+                if bounds == [-10, 0] or (bounds == [0, None] and k % 2):
+                    args.update(A(default=E(F2)))
+                elif ptype != 'Magnitude':
+                    args.update(A(default=E(0 if ptype == 'Integer' else (0 if k % 3 else 0.0))))
+                    if k % 3 == 0 and bounds != 'absent':
+                        args['default'] = {'v': E(5 if bounds != [-10, 0] else -5)}
+                yield mk(ptype, args, pool)
+    dpool = [E(v) for v in [None, D0, D1, D3, T1, 1, 'a']]
+    for ptype in ('Date', 'CalendarDate'):
+        for hook in (H('const', D1), H('const', T1), H('const', D3), H('const', 5), H('double'), H('ident')):
+            yield mk(ptype, A(set_hook=hook, bounds=[E(D0), E(D2)]), dpool)
+            yield mk(ptype, A(set_hook=hook), dpool)
+    # a hook on a type that has no set_hook slot is a constructor error of the library's own (TypeError): not declared here
+
+
+def constant_cases():
+    """constant / read-only declarations: validated on the routes that may set them, refused elsewhere"""
+    decls = [('Number', A(bounds=[E(0), E(5)], default=E(1)), [E(v) for v in [1, 1.0, 3, 5, 6, -1, NAN, None, 'a', True, F1]]),
+             ('Integer', A(bounds=[E(0), E(5)], default=E(1)), [E(v) for v in [1, 3, 6, 2.0, None, 'a', True]]),
+             ('Integer', A(default=E(1), set_hook={'hook': 'double'}), [E(v) for v in [1, 3, 0.5, 'a']]),
+             ('String', A(default=E('a'), regex='^a'), [E(v) for v in ['a', 'ab', 'b', '', None, 1]]),
+             ('Boolean', {}, [E(v) for v in [True, False, None, 0, 1, 'a']]),
+             ('List', A(item_type=[1], bounds=[0, 2], default=E([1])), [E(v) for v in [[1], [], [1, 2, 3], ['a'], None, (1,), 5]]),
+             ('Tuple', A(default=E((1, 2))), [E(v) for v in [(1, 2), (3, 4), (1,), [1, 2], None]]),
+             ('Range', A(default=E((0, 1)), bounds=[E(0), E(2)]), [E(v) for v in [(0, 1), (1, 2), (1, 3), (NAN, 1), None, (0,)]]),
+             ('Selector', A(objects=[E(1), E(2), E('a')]), [E(v) for v in [1, 2, 'a', 3, None, 1.0]]),
+             ('ListSelector', A(objects=[E(1), E(2)], default=E([1])), [E(v) for v in [[1], [2, 1], [3], [], None, 1]]),
+             ('ClassSelector', A(class_=[1], default=E(1)), [E(v) for v in [1, True, 'a', None, 1.5]]),
+             ('Color', A(default=E('#fff')), [E(v) for v in ['#fff', 'red', 'nocolor', None, 1]]),
+             ('Date', A(default=E(D1), bounds=[E(D0), E(D2)]), [E(v) for v in [D1, D0, D3, T1, None, 1]]),
+             ('Callable', A(default=E(F2)), [E(v) for v in [F1, None, 1]]),
+             ('Dict', A(default=E({})), [E(v) for v in [{}, {'a': 1}, [], None]])]
+    for ptype, args, pool in decls:
+        yield mk(ptype, dict(args, **A(constant=True)), pool)
+        yield mk(ptype, dict(args, **A(constant=True, allow_None=True)), pool)
+        yield mk(ptype, dict(args, **A(readonly=True)), pool)
+        yield mk(ptype, dict(args, **A(constant=False)), pool)
+    yield mk('Number', A(constant=True, default=None, bounds=[E(0), E(1)]), [E(v) for v in [None, 0, 1, 2, 0.5]])
+    yield mk('Number', A(constant=True, default=E(7), bounds=[E(0), E(1)]), [E(0)])          # invalid default
+    yield mk('Number', A(readonly=True, constant=False, default=E(0.5)), [E(0.5), E('a')])
+
+
+def step_cases():
+    """`step` of the Number family and the soft bounds of a Range are type-checked by every `_validate` call:
+    an ill-typed one means the constructor raises"""
+    npool = [E(v) for v in [None, 0, 1, 0.5, 2, 'a', True, NAN]]
+    for ptype, steps in (('Number', [1, 0.5, True, Fraction(1, 2), Decimal('0.1'), NAN, INF, 0, 'a', D0, [1], None, F1]),
+                         ('Magnitude', [0.1, 1, 'a', None]),
+                         ('Integer', [1, True, 0, -3, 10**30, 0.5, 2.0, 'a', Fraction(1), None, D0])):
+        for st in steps:
+            yield mk(ptype, A(step=E(st)), npool)
+            yield mk(ptype, A(step=E(st), bounds=[E(0), E(1)], allow_None=True), npool)
+    dpool = [E(v) for v in [None, D0, D1, T1, 1, 'a']]
+    for ptype in ('Date', 'CalendarDate'):
+        for st in (D0, T0, 1, 0.5, 'a', None, dt.timedelta and (1,)):
+            yield mk(ptype, A(step=E(st)), dpool)
+            yield mk(ptype, A(step=E(st), default=E(D1)), dpool)
+    rpool = [E(v) for v in [None, (0, 1), (1, 0), (0, 5), (NAN, 1), (0,), 'a']]
+    for sb in ([0, 1], [None, 2], [0, None], [0.5, True], [NAN, INF], ['a', 1], [0, 'b'], [D0, None], [None, [1]], [F1, 1]):
+        yield mk('Range', A(softbounds=[E(b) for b in sb]), rpool)
+        yield mk('Range', A(softbounds=[E(b) for b in sb], bounds=[E(0), E(2)], default=E((0, 1))), rpool)
+    yield mk('Range', A(softbounds=None), rpool)
+    drpool = [E(v) for v in [None, (D0, D1), (T0, T1), (D1, D0), (D0, T1), (1, 2)]]
+    for ptype in ('DateRange', 'CalendarDateRange'):
+        for sb in ([D0, D1], [T0, None], [None, T1], [D0, T1], [1, None], [None, 'a'], [0.5, D1]):
+            yield mk(ptype, A(softbounds=[E(b) for b in sb]), drpool)
+            yield mk(ptype, A(softbounds=[E(b) for b in sb], bounds=[E(D0), E(D2)]), drpool)
+
+
 def edited_objects_cases():
     """the allowed objects are the list as it is at assignment time: declare (list- or dict-style), edit
     `.objects` positionally or by key, then assign old and new objects through every route"""
@@ -1125,7 +1269,7 @@ def cases(rng, tier, worker, nworkers):
     if worker == 0:
         for f in sorted(glob.glob(os.path.join(os.path.dirname(__file__), '..', '..', 'corpus', 'C01', '*.json'))):
             yield json.load(open(f))['case']
-    streams = [directed(), alias_cases(), edited_objects_cases(), string_cases(), boolean_cases(), callable_cases(), tuple_cases(), color_cases(),
+    streams = [directed(), alias_cases(), edited_objects_cases(), hook_cases(), constant_cases(), step_cases(), string_cases(), boolean_cases(), callable_cases(), tuple_cases(), color_cases(),
                number_grid('Number'),
                number_grid('Integer', pool=[E(v) for v in integer_pool()] if tier == 'quick' else None),
                number_grid('Magnitude', [None, 0, 1]), range_grid(thin=3 if tier == 'quick' else 1),
